@@ -231,6 +231,8 @@ def finish(ctx: Ctx) -> int:
                 broken = f"vacuity guard failed: counter {name!r} = {t['counters'].get(name, 0)} < {minimum}"
                 break
 
+    if exit_code == 0 and broken is None and not t["samples"]:
+        broken = "no sample case was recorded (evidence would be invalid)"
     level = getattr(ctx.module, "LEVEL", "exploration")
     cov: Dict[str, Any] = {
         "evaluations": t["evals"],
